@@ -266,6 +266,18 @@ def check_string_order(ctx):
         else:
             checks.setdefault("other:" + txt[:30], []).append(t)
     ctx.need(len(checks) >= 5, "fewer than 5 constraint checks found in StringField._validate: %s" % sorted(checks))
+    # idempotence of the normalisation itself: stripping caller-given characters has to come after the case transform -- with
+    # strip="X", case="upper" the value "xa" is stripped (nothing), upper-cased to "XA", and a second validation strips the X
+    bad_ts = None
+    for cn in transforms["case"]:
+        for sn in transforms["strip"]:
+            if g.path(sn, lambda n, cn=cn: n is cn, may_raise=lambda n: False, from_successors=True):
+                bad_ts = (sn, cn)
+    ctx.ob("order.case-before-strip", v, "case transform before strip", bad_ts is None,
+           "the case transform precedes the strip: validating the result again changes nothing" if bad_ts is None else
+           "the strip (line %s) runs before the case transform (line %s): characters that only match after the transform survive the first "
+           "validation and are stripped by the second -- validation is not idempotent ('xa' -> 'XA' -> 'A' for strip='X', case='upper')"
+           % (bad_ts[0].lineno, bad_ts[1].lineno))
     pairs = [("strip", k) for k in checks] + [("case", k) for k in checks if k != "required-empty"]
     for tr, ck in sorted(pairs):
         bad = None
